@@ -34,7 +34,8 @@ type PipeCase struct {
 	Algo      string    `json:"algo"` // compare, compareW, fbp, tbe, consensus
 	Ref       string    `json:"ref,omitempty"`
 	Recs      []Rec     `json:"recs"`
-	Feed      string    `json:"feed"` // "reader": real ReadMultiTrees over a SimReader; "chan": harness producer
+	Feed      string    `json:"feed"`            // "reader": real ReadMultiTrees over a SimReader; "chan": harness producer
+	Nexus     bool      `json:"nexus,omitempty"` // reader feed: the trees come as a Nexus document
 	Cpus      int       `json:"cpus"`
 	Tips      bool      `json:"tips,omitempty"`
 	Identical bool      `json:"identical,omitempty"`
@@ -117,8 +118,18 @@ var errInjected = errors.New("injected error record")
 func (pc *PipeCase) feed() <-chan tree.Trees {
 	if pc.Feed == "reader" {
 		text := pc.streamText()
+		format := utils.FORMAT_NEWICK
+		if pc.Nexus {
+			var b strings.Builder
+			b.WriteString("#NEXUS\nBEGIN TREES;\n")
+			for i, r := range pc.Recs {
+				fmt.Fprintf(&b, "TREE t%d = %s\n", i, r.Text)
+			}
+			b.WriteString("END;\n")
+			text, format = b.String(), utils.FORMAT_NEXUS
+		}
 		sr := &SimReader{Data: []byte(text), Limit: len(text), Chunk: pc.Chunk, EndErr: io.EOF}
-		return utils.ReadMultiTrees(bufio.NewReaderSize(sr, pc.BufSz), utils.FORMAT_NEWICK)
+		return utils.ReadMultiTrees(bufio.NewReaderSize(sr, pc.BufSz), format)
 	}
 	ch := make(chan tree.Trees)
 	id := verifhook.Spawn("harness.producer")
@@ -374,6 +385,7 @@ type pipeGenOpts struct {
 	twoBases   bool     // collections built from two base trees so that split frequencies sit on k/n exactly
 	maxFaults  int      // more than one faulty record in a stream (default 1)
 	zeroTrees  bool     // the stream may be empty
+	nexusFeed  bool     // the reader feed may be a Nexus document
 	minTax     int
 	maxTax     int
 	maxTrees   int
@@ -443,7 +455,7 @@ func genPipe(rt *rapid.T, tier string, op pipeGenOpts) *PipeCase {
 		pc.Recs = append(pc.Recs, Rec{Text: m.Newick()})
 	}
 	refm := base.Clone(nil)
-	switch rapid.IntRange(0, 3).Draw(rt, "refkind") {
+	switch rapid.IntRange(0, 4).Draw(rt, "refkind") {
 	case 0:
 		if len(models) > 0 {
 			refm = models[r.Intn(len(models))].Clone(nil)
@@ -454,6 +466,15 @@ func genPipe(rt *rapid.T, tier string, op pipeGenOpts) *PipeCase {
 		if op.refine {
 			refm = related(base, r, 0, 2)
 		}
+	case 3:
+		// a reference much less resolved than the other trees: every inner branch contracted with probability 1/2
+		refm = base.Clone(nil)
+		for _, x := range innerNodes(refm) {
+			if r.Intn(2) == 0 {
+				Contract(x)
+			}
+		}
+		Unroot(refm)
 	}
 	if op.rootedRef && rapid.IntRange(0, 2).Draw(rt, "rootref") == 0 {
 		all := refm.all()
@@ -464,6 +485,7 @@ func genPipe(rt *rapid.T, tier string, op pipeGenOpts) *PipeCase {
 	pc.Tips = rapid.Bool().Draw(rt, "tips")
 	pc.Identical = rapid.IntRange(0, 4).Draw(rt, "identical") == 0
 	pc.Feed = rapid.SampledFrom([]string{"reader", "chan"}).Draw(rt, "feed")
+	pc.Nexus = op.nexusFeed && pc.Feed == "reader" && rapid.IntRange(0, 3).Draw(rt, "nexusfeed") == 0
 	pc.BufSz = []int{4096, 16, 64, 65536}[rapid.IntRange(0, 3).Draw(rt, "bufsz")]
 	pc.Chunk = []int{4096, 1, 7, 64}[rapid.IntRange(0, 3).Draw(rt, "chunk")]
 	nfaults := 0
